@@ -40,6 +40,28 @@ def run(ctx):
     cases.append(mk(k=2, ivf=4, ivl=16, al=0, pl=48))
     cases.append(mk(k=2, af=1, al=16, pf=1, pl=32))
     cases.append(mk(k=3, af=2, al=17, pf=2, pl=31))
+    # keys chosen by the shape of the hash subkey H = SM4_K(0): a zero byte at the front / the end / inside, several zero
+    # bytes, a byte 0xff, top bit and bottom bit set - found by TLC over the first keys of the family
+    with open(os.path.join(d, "gkeys.cfg"), "w") as f:
+        f.write("SPECIFICATION Spec\nCONSTANTS\n NKeys = %d\n" % (4000 if thorough else 1200))
+    r = ctx.tlc("GCMKeys", "gkeys.cfg", workers=ncpu, timeout=1500)
+    hk = {x["k"]: x["h"] for x in markers(r["out"], "HKEY")}
+    shapes = [("zero byte first", lambda h: h[0] == 0), ("zero byte last", lambda h: h[15] == 0), ("zero byte inside", lambda h: 0 in h[1:15]),
+              ("two zero bytes", lambda h: h.count(0) >= 2), ("byte ff", lambda h: 255 in h), ("top bit", lambda h: h[0] >= 128), ("bottom bit", lambda h: h[15] % 2 == 1),
+              ("top bit clear", lambda h: h[0] < 128)]
+    picked = {}
+    for name, f in shapes:
+        ks = [k for k in sorted(hk) if f(hk[k]) and k not in picked.values()]
+        for k in ks[: (3 if thorough else 2) if "zero" in name else 1]:
+            picked[name + " #" + str(k)] = k
+    if not any("zero" in n for n in picked):
+        raise Infra("no key with a zero byte in H among %d" % len(hk))
+    ctx.log("keys by shape of H (TLC, %d keys searched): %s" % (len(hk), picked))
+    ctx.cov["keys_by_hash_subkey_shape"] = picked
+    for k in picked.values():
+        cases.append(mk(k=k, al=5, pl=37, tamper=1))
+        cases.append(mk(k=k, ivl=16, al=16, pl=16))
+        cases.append(mk(k=k, ivl=7, al=0, pl=1))
     # long messages (the counter runs through hundreds of blocks): one beyond 4 KiB in the quick tier
     for pl in ([255, 256, 257, 1024, 4096, 4097, 8200, 16385, 65536] if thorough else [257, 4097]):
         cases.append(mk(al=13, pl=pl))
